@@ -10,6 +10,9 @@
 //! `./check` pipes requests.txt through the Lean model driver and diffs it against real.txt.
 
 pub mod gk;
+pub mod gkb;
+pub mod scen;
+pub mod sk;
 
 use std::{
     collections::BTreeMap,
@@ -284,7 +287,21 @@ impl Recorder {
             write!(o, "\n    {}", js(s)).unwrap();
         }
         o.push_str("\n  ],\n  \"oracle_failures\": [");
-        for (i, fl) in self.oracle_failures.iter().take(20).enumerate() {
+        // keep up to 30 failures, one per distinct class (first 48 chars of `what`, digits
+        // blanked) first, so that a new kind of failure is never hidden behind many of one kind
+        let class = |w: &str| -> String { w.chars().take(48).map(|c| if c.is_ascii_hexdigit() && !c.is_ascii_alphabetic() { '#' } else { c }).collect() };
+        let mut seen = std::collections::BTreeSet::new();
+        let mut first: Vec<&OracleFailure> = vec![];
+        let mut rest: Vec<&OracleFailure> = vec![];
+        for fl in &self.oracle_failures {
+            if seen.insert(class(&fl.what)) {
+                first.push(fl);
+            } else {
+                rest.push(fl);
+            }
+        }
+        first.extend(rest);
+        for (i, fl) in first.into_iter().take(30).enumerate() {
             if i > 0 {
                 o.push(',');
             }
@@ -344,3 +361,7 @@ pub fn read_replay_input(path: &Path) -> Vec<String> {
         .map(|a| a.iter().filter_map(|x| x.as_str().map(|s| s.to_string())).collect())
         .unwrap_or_default()
 }
+pub mod langkit;
+pub mod coop;
+pub mod factsworld;
+pub mod sessworld;
